@@ -1,9 +1,9 @@
 CONSTANTS
   Configs <- TierConfigs
-  Tier = "thorough"
+  Tier = "nv"
   CyclesFromEveryNode = TRUE
   RefDepthChecked = TRUE
-  ExitLinked = TRUE
+  ExitLinked = FALSE
   StopAfterAnswer = TRUE
   ResumeAllEdges = TRUE
   StepCap = 600
